@@ -37,7 +37,11 @@ PROP = dict(
                            "monitor:integer-value-compared": 150000, "monitor:float-value-compared": 60000,
                            "monitor:float-exact-integer-compared": 20000, "monitor:character-compared": 15000,
                            "monitor:query-verdict-compared": 500000, "monitor:range-argument-checked": 10000,
-                           "monitor:refused-not-representable": 150000})],
+                           "monitor:refused-not-representable": 150000}),
+              dict(name="c07_cxx", src=["c07_cxx.cpp"], libs=["mpt++", "mptio", "mptplot", "mptcore"], batch=32,
+                   floors={"metatype::generic::convert": 30000, "metatype::create(value)": 15000, "metatype::value<T>::convert": 20000,
+                           "metatype::basic::convert": 5000, "eval:conversions": 400000, "monitor:query-verdict-compared": 400000,
+                           "monitor:target-value-compared": 100000, "monitor:refused-not-representable": 50000})],
         rule=("value leg: case = (API, source type, target, block): a block is the complete value range (8-bit), 4096 consecutive values "
               "(16-bit, 16 blocks) or the boundary list plus 1000 (quick) / 4000 (thorough) PRNG values (32/64-bit, floating); every value "
               "is converted with and without destination.  text leg: case = (function [and length / type argument], base, block): every "
